@@ -308,6 +308,8 @@ def run_case(p):
     dout = deps.remove_units(dprime, cone)
     for bad, pos in p["faults"]:
         if pos[0] == "media2":        # the document without the bad piece: the same body without that media type
+            if pos[1] not in dout["paths"].get(pos[2], {}):
+                continue              # the operation already went with the cone of the other bad piece
             content = dout["paths"][pos[2]][pos[1]]["requestBody"]["content"]
             for k_ in ("application/x-www-form-urlencoded", "application/vnd.other+json"):
                 if k_ in content and list(content).index(k_) == len(content) - 1:
